@@ -60,6 +60,10 @@ func scenarios(prop, tier string) []*Scenario {
 			r = append(r, &Scenario{Name: baseName(base), Cfg: hdr.Config{MaxBranchDepth: 144, Base: base}, N: pick(3, 4), M: 1,
 				Maint: []hdr.Op{opClean, opReload}, Attach: []int{0, -1, -2}, Slots: []string{"a", "H"}})
 		}
+		// marking and unmarking (C17's operations) inside C01's histories: a header that was removed
+		// and is acceptable again must be selected like any other
+		r = append(r, &Scenario{Name: "genesis/mark-unmark", Cfg: hdr.Config{MaxBranchDepth: 144}, N: pick(4, 5), Marks: 2, M: 1,
+			Maint: []hdr.Op{opReload}, Slots: []string{"a", "H"}})
 		for _, s := range r {
 			s.oracles = []oracle{oracleC01}
 		}
@@ -71,6 +75,12 @@ func scenarios(prop, tier string) []*Scenario {
 			&Scenario{Name: "genesis/clean+reload", Cfg: hdr.Config{MaxBranchDepth: 144}, N: pick(5, 6), Subs: 1, M: pick(1, 2),
 				Maint: []hdr.Op{opClean, opReload}},
 		)
+		// the automatic clean at every 10000th height runs inside ProcessHeader, between the change
+		// of the best chain and its announcement: tips just below 10000, forks and extensions across it
+		for _, base := range []int{9997, 9998} {
+			r = append(r, &Scenario{Name: baseName(base) + "/auto-clean-boundary", Cfg: hdr.Config{MaxBranchDepth: 144, Base: base}, N: pick(4, 5), Subs: 1,
+				Attach: []int{0, -1}, Slots: []string{"a", "H"}})
+		}
 		for _, s := range r {
 			s.oracles = []oracle{oracleC07}
 		}
@@ -81,6 +91,9 @@ func scenarios(prop, tier string) []*Scenario {
 		}
 		r = append(r, &Scenario{Name: "genesis/synthetic-splits", Cfg: hdr.Config{MaxBranchDepth: 2, Splits: "synth"},
 			N: pick(5, 6), M: 1, Maint: []hdr.Op{opClean}, Probes: true})
+		// a restart with a longer configured invalid list than the one persisted by the previous run
+		r = append(r, &Scenario{Name: "genesis/invalid-list-extended-at-restart", Cfg: hdr.Config{MaxBranchDepth: 144, Invalid: []string{"G/a/a"}, InvalidLater: []string{"G/a/b", "G/b"}},
+			N: pick(4, 5), M: 1, Maint: []hdr.Op{opReload}, Probes: true})
 		for _, s := range r {
 			s.oracles = []oracle{oracleC08verdict, oracleC08nochange}
 		}
@@ -97,8 +110,12 @@ func scenarios(prop, tier string) []*Scenario {
 			r = append(r, &Scenario{Name: baseName(base), Cfg: hdr.Config{MaxBranchDepth: 144, Base: base}, N: pick(3, 4), M: 1,
 				Maint: []hdr.Op{opClean, opReload}, Attach: []int{0, -1, -2}, Slots: []string{"a", "H"}})
 		}
+		r = append(r, fileBoundaryRestart())
 		for _, s := range r {
 			s.oracles = []oracle{oracleC09}
+			// lookups are also made after every operation of the history, not only in the state under
+			// examination (a lookup must not influence later answers)
+			s.Cfg.ObserveReads = true
 		}
 	case "C10":
 		r = append(r,
@@ -139,6 +156,11 @@ func scenarios(prop, tier string) []*Scenario {
 			r = append(r, &Scenario{Name: baseName(base), Cfg: hdr.Config{MaxBranchDepth: 144, Base: base}, N: pick(3, 4), M: 2,
 				Maint: []hdr.Op{opReload}, Attach: []int{0, -1, -2}, Slots: []string{"a", "H"}})
 		}
+		r = append(r, fileBoundaryRestart())
+		// the invalid list is part of what Save / Load carries over: marked, unmarked (also back to
+		// an empty list) and re-offered around a reload
+		r = append(r, &Scenario{Name: "genesis/mark-unmark+reload", Cfg: hdr.Config{MaxBranchDepth: 144}, N: pick(3, 4), Marks: 2, M: pick(1, 2),
+			Maint: []hdr.Op{opReload}, Slots: []string{"a", "H"}})
 		for _, s := range r {
 			s.oracles = []oracle{oracleC11, oracleC01, oracleC08verdict}
 		}
@@ -178,6 +200,7 @@ func scenarios(prop, tier string) []*Scenario {
 			r = append(r, &Scenario{Name: baseName(base), Cfg: hdr.Config{MaxBranchDepth: 144, Base: base}, N: 2, M: 1,
 				Maint: []hdr.Op{opClean}, Attach: []int{0, -1}, Slots: []string{"a", "H"}})
 		}
+		r = append(r, fileBoundaryRestart())
 		for _, s := range r {
 			s.oracles = []oracle{oracleC18}
 		}
@@ -256,6 +279,14 @@ func scenarios(prop, tier string) []*Scenario {
 		}
 	}
 	return r
+}
+
+// fileBoundaryRestart: restarts (Save + Load with a scaled retained depth of 2 or 3) of a chain of
+// 1002-1004 headers, so that the lowest height kept in memory falls on, just below and just above
+// the first header of a header file (height 1000).
+func fileBoundaryRestart() *Scenario {
+	return &Scenario{Name: "base-1002/restart-on-file-boundary", Cfg: hdr.Config{MaxBranchDepth: 144, Base: 1002}, N: 2, M: 1,
+		Maint: []hdr.Op{{K: "reloadd", D: 2}, {K: "reloadd", D: 3}}, Attach: []int{0}, Slots: []string{"a"}}
 }
 
 func bases(quick bool) []int {
